@@ -100,7 +100,12 @@ def run_assignments(seed, grouped=False, history_first=True, only=None):
                 before = snapshot.deep(objs)
                 try:
                     with watchdog(30):
-                        if grouped:
+                        if grouped == "noop-first":
+                            # an "edit form" that re-submits an unchanged field before the invalid one
+                            other_old = objs["net"].bandwidth_energy_intensity
+                            same = SourceValue(other_old.value.magnitude * other_old.value.units)
+                            ModelingUpdate([[other_old, same], [getattr(o, pn), bad]])
+                        elif grouped:
                             other_old = objs["net"].bandwidth_energy_intensity
                             ModelingUpdate([[other_old, SourceValue(0.07 * u("kWh/GB"))], [getattr(o, pn), bad]])
                         else:
@@ -143,8 +148,14 @@ def run_constructions(only=None):
 def violations_of(results):
     vs = []
     for r in results:
-        where = "construction" if r.get("construction") else ("grouped-update" if r.get("grouped") else "assignment")
-        if r["raised"] is None:
+        where = "construction" if r.get("construction") else (
+            "grouped-update-after-noop" if r.get("grouped") == "noop-first" else "grouped-update" if r.get("grouped") else "assignment")
+        if r["kind"] == "union" and (r["raised"] is None or r["changed"]) and r["raised"] != "not-allowed":
+            # call site: check_input_value_type_positivity_and_unit skips parameters whose annotation is a Union
+            vs.append({"signature": f"C14:union-annotated-parameter-unchecked:{r['cls']}.{r['param']}",
+                       "detail": f"{r['cls']}.{r['param']} = <{r['invalid']}> at {where}: " + ("accepted" if r["raised"] is None else f"refused ({r['raised']}) only by recomputation, after the value was installed"),
+                       "replay": {"case": r}})
+        elif r["raised"] is None:
             vs.append({"signature": f"C14:accepted:{r['cls']}.{r['param']}:{r['invalid']}:{where}",
                        "detail": f"{r['invalid']} value accepted for {r['cls']}.{r['param']} at {where}", "replay": {"case": r}})
         elif r["changed"] and r["raised"] == "not-allowed":
@@ -172,7 +183,7 @@ def shard(args):
     seed, names, mode = args
     if mode == "construct":
         return run_constructions(only=names)
-    return run_assignments(seed, grouped=(mode == "grouped"), only=names)
+    return run_assignments(seed, grouped=("noop-first" if mode == "noop-first" else mode == "grouped"), only=names)
 
 
 def inval_json(r):
